@@ -281,10 +281,72 @@ fn main() {
     });
     sink.merge(s2);
 
-    for style in [1u8, 3, 4] {
+    for style in [1u8, 3, 4, 6, 7, 8] {
         let k = vcommon::en::with_fill_style(style, cat::known_extensions);
         let sx = par_run(run.threads, k.len(), |i, sink| check_single(&k[i].buf, sink));
         sink.merge(sx);
+    }
+    {
+        let k = cat::text_extensions();
+        let sx = par_run(run.threads, k.len(), |i, sink| check_single(&k[i].buf, sink));
+        sink.merge(sx);
+    }
+    // every content size for the variable-length extension contents (single extension, generic dispatcher and friends)
+    {
+        let mut builders: Vec<(usize, Box<dyn Fn(usize) -> W + Sync>)> = Vec::new();
+        for t in [35u16, 21, 41, 0x1234, 0x0a0a] {
+            builders.push((65535, Box::new(move |n| cat::ext(t, |w| {
+                w.fill(n, t as u8);
+            }))));
+        }
+        builders.push((65530, Box::new(|n| cat::ext(0, |w| {
+            w.block(2, "l", |w| {
+                w.u8(0);
+                w.block(2, "n", |w| {
+                    w.fill(n, b'a');
+                });
+            });
+        }))));
+        builders.push((255, Box::new(|n| cat::ext(16, |w| {
+            w.block(2, "l", |w| {
+                w.block(1, "p", |w| {
+                    w.fill(n, b'h');
+                });
+            });
+        }))));
+        builders.push((32766, Box::new(|n| cat::ext(10, |w| {
+            w.block(2, "l", |w| {
+                for i in 0..n {
+                    w.u16(i as u16);
+                }
+            });
+        }))));
+        builders.push((127, Box::new(|n| cat::ext(43, |w| {
+            w.block(1, "l", |w| {
+                for i in 0..n {
+                    w.u16(0x0300 + i as u16);
+                }
+            });
+        }))));
+        builders.push((65533, Box::new(|n| cat::ext(18, |w| {
+            w.block(2, "l", |w| {
+                w.fill(n, 0x5c);
+            });
+        }))));
+        builders.push((65534, Box::new(|n| cat::ext(5, |w| {
+            w.u8(1);
+            w.fill(n, 0);
+        }))));
+        for (max, b) in &builders {
+            let all = sizes(*max, thorough);
+            let chunks: Vec<&[usize]> = all.chunks(64).collect();
+            let sx = par_run(run.threads, chunks.len(), |i, sink| {
+                for &n in chunks[i] {
+                    check_single(&b(n).buf, sink);
+                }
+            });
+            sink.merge(sx);
+        }
     }
     // (2b) inner lists with many elements (255 / 256 / 257 / 1000 / 4000 names, protocols, filters)
     let many = cat::extensions_many();
